@@ -5,3 +5,8 @@ package config
 // Contracts for the goverif VC generator (/verif). Comment-only file: it adds no code.
 
 //@ type Config guarded_by mutex: properties, fileRefSet, values
+
+// Config.Get converts the stored value to the requested data type (trusted; C25/C13 look inside).
+//@ func (*Config).Get [C33] trusted
+//@   modifies nothing
+//@   ensures imp(result1 == nil && dataType == "bool", typeis(result, bool))
